@@ -177,7 +177,7 @@ impl Check for C16 {
         "C16"
     }
     fn ncases(&self, tier: Tier) -> u64 {
-        tier.sz(15000, 200000)
+        tier.sz(60000, 1000000)
     }
     fn rule(&self) -> &'static str {
         "one generated grammar per case (all families incl. precedence-resolved and %nonassoc grammars); for every state x token: state_actions/state_shifts vs action(); every shift/goto target vs edge(); core_reduces and reduce_only_state vs the state's Reduce cells; all states reachable; every closed state vs a reference LR(1) closure of its core. Non-trivial = table has at least one precedence/default-resolved or %nonassoc-removed cell; distinct by normalised grammar."
@@ -186,12 +186,14 @@ impl Check for C16 {
         vec!["reference FIRST/nullable/closure are the harness's own", "a state with no action at all is accepted as reduce-only or not"]
     }
     fn floor(&self, tier: Tier) -> u64 {
-        tier.sz(2000, 25000)
+        tier.sz(4000, 50000)
     }
     fn required_counters(&self, _t: Tier) -> Vec<&'static str> {
         vec!["cells", "cells_resolved", "cells_removed_by_nonassoc", "closures_recomputed"]
     }
-    fn run_case(&self, seed: u64, idx: u64, _tier: Tier) -> CaseOut {
+    fn run_case(&self, seed: u64, idx: u64, tier: Tier) -> CaseOut {
+        // thorough tier: every third case draws its random grammars from the medium-sized family
+        set_size_boost(tier == Tier::Thorough && idx % 3 == 1);
         let mut out = CaseOut::new();
         let mut rng = Rng::derive(seed, "C16", idx, 0);
         let ag = if rng.chance(2, 5) { let mut g = gen_expr(&mut rng); g.compact(); g } else { gen_mixed(&mut rng, true) };
